@@ -69,17 +69,41 @@ type vfC14Case struct {
 	PaneWidth int32          `json:"pane_width"`
 	ServerTmux int           `json:"server_tmux"` // 0 none, 1 normal mode with pane width
 	Download  bool           `json:"download"`
+	More      []vfC14Round   `json:"more,omitempty"` // further handshakes through the same relay instance
+}
+
+type vfC14Round struct {
+	Action     map[string]any `json:"action"`
+	Args       vfPairCfg      `json:"args"`
+	ServerTmux int            `json:"server_tmux"`
+	Download   bool           `json:"download"`
 }
 
 func vfC14Run(cs vfC14Case) string {
 	g := newVfRelayRig(cs.Tmux, cs.PaneWidth)
+	rounds := append([]vfC14Round{{Action: cs.Action, Args: cs.Args, ServerTmux: cs.ServerTmux, Download: cs.Download}}, cs.More...)
+	for i, r := range rounds {
+		one := cs
+		one.Action, one.Args, one.ServerTmux, one.Download = r.Action, r.Args, r.ServerTmux, r.Download
+		if m := vfC14Round1(g, one, i); m != "" {
+			if i > 0 {
+				return fmt.Sprintf("handshake %d through the same relay: %s", i+1, m)
+			}
+			return m
+		}
+	}
+	return ""
+}
+
+func vfC14Round1(g *vfRelayRig, cs vfC14Case, round int) string {
+	cliBase, srvBase := g.cliOut.len(), g.srvIn.len()
 	mode := "R"
 	if cs.Download {
 		mode = "S"
 	}
-	trigger := fmt.Sprintf("\x1b7\x07::TRZSZ:TRANSFER:%s:1.1.8:%013d:%d\r\n", mode, 1234567890100, 0)
+	trigger := fmt.Sprintf("\x1b7\x07::TRZSZ:TRANSFER:%s:1.1.8:%013d:%d\r\n", mode, 1234567890100+int64(round)*100, 0)
 	g.srvOut.feed([]byte(trigger))
-	if _, ok := vfWaitFor(g.cliOut, 0, "#R", 3*time.Second); !ok {
+	if _, ok := vfWaitFor(g.cliOut, cliBase, "#R", 3*time.Second); !ok {
 		return "the relay did not forward the trigger marked #R"
 	}
 	actJSON, _ := json.Marshal(cs.Action)
@@ -88,7 +112,7 @@ func vfC14Run(cs vfC14Case) string {
 		nl = "!\n"
 	}
 	g.cliIn.feed(vfEncodeLine("ACT", actJSON, "\n"))
-	at, ok := vfWaitFor(g.srvIn, 0, "#ACT:", 3*time.Second)
+	at, ok := vfWaitFor(g.srvIn, srvBase, "#ACT:", 3*time.Second)
 	if !ok {
 		return fmt.Sprintf("the relay did not pass an ACT line to the server for action %s (client got %s)", actJSON, vfShort(g.cliOut.bytes(), 200))
 	}
@@ -123,6 +147,10 @@ func vfC14Run(cs vfC14Case) string {
 		return fmt.Sprintf("the relay raised the protocol: %d -> %d", a1.Protocol, a2.Protocol)
 	}
 	if !a1.Confirm {
+		deadline := time.Now().Add(3 * time.Second)
+		for g.relay.relayStatus.Load() != kRelayStandBy && time.Now().Before(deadline) {
+			time.Sleep(100 * time.Microsecond)
+		}
 		return ""
 	}
 	// the real server code answers the narrowed action
@@ -147,7 +175,7 @@ func vfC14Run(cs vfC14Case) string {
 	cfgLine := append([]byte(nil), cfgBuf.Bytes()...)
 	g.srvOut.feed(cfgLine)
 	marker := "#CFG:"
-	at, ok = vfWaitFor(g.cliOut, 0, marker, 3*time.Second)
+	at, ok = vfWaitFor(g.cliOut, cliBase, marker, 3*time.Second)
 	if !ok {
 		return fmt.Sprintf("the relay did not pass a CFG line to the client (client got %s)", vfShort(g.cliOut.bytes(), 300))
 	}
@@ -189,7 +217,7 @@ func vfC14Run(cs vfC14Case) string {
 		time.Sleep(100 * time.Microsecond)
 	}
 	g.cliIn.feed(vfEncodeLine("EXIT", []byte("Saved 1 file"), "\n"))
-	if _, ok := vfWaitFor(g.srvIn, 0, "#EXIT:", 3*time.Second); !ok {
+	if _, ok := vfWaitFor(g.srvIn, srvBase, "#EXIT:", 3*time.Second); !ok {
 		return "the EXIT line did not reach the server"
 	}
 	deadline := time.Now().Add(3 * time.Second)
@@ -234,6 +262,19 @@ func vfGenC14(rt *rapid.T) vfC14Case {
 	cs.PaneWidth = int32(rapid.SampledFrom([]int{0, -1, 40, 80, 200}).Draw(rt, "pane"))
 	cs.ServerTmux = rapid.IntRange(0, 1).Draw(rt, "servertmux")
 	cs.Download = rapid.Bool().Draw(rt, "download")
+	// further handshakes through the same relay: what one transfer negotiated must not leak into the next
+	nmore := rapid.SampledFrom([]int{0, 0, 1, 2}).Draw(rt, "nmore")
+	for i := 0; i < nmore; i++ {
+		var r vfC14Round
+		b := map[string]any{"lang": "go", "version": "1.1.8", "confirm": rapid.IntRange(0, 9).Draw(rt, "confirm_m") != 0, "newline": "\n",
+			"protocol": rapid.IntRange(0, 9).Draw(rt, "protocol_m"), "binary": rapid.Bool().Draw(rt, "binary_m"), "support_dir": rapid.Bool().Draw(rt, "dir_m")}
+		r.Action = b
+		r.Args = vfGenPairCfg(rt, 100)
+		r.Args.Timeout = rapid.SampledFrom([]int{20, 1, 0, 300}).Draw(rt, "timeout_m")
+		r.ServerTmux = rapid.IntRange(0, 1).Draw(rt, "servertmux_m")
+		r.Download = rapid.Bool().Draw(rt, "download_m")
+		cs.More = append(cs.More, r)
+	}
 	return cs
 }
 
@@ -241,7 +282,7 @@ func TestVF_C14(t *testing.T) {
 	c := vfNewCollector("C14", "TestVF_C14")
 	vfCheck(t, c, vfGenC14, func(cs vfC14Case) string {
 		msg := vfC14Run(cs)
-		labels := []string{"handshake_level"}
+		labels := []string{"handshake_level", fmt.Sprintf("handshakes_through_one_relay_%d", 1+len(cs.More))}
 		if cs.Tmux {
 			labels = append(labels, "relay_in_tmux")
 		}
